@@ -10,7 +10,8 @@ REGISTRY = {
     "C20": dict(
         level="exploration",
         units=[dict(pkg=APP, test="TestVerifC20Inputs", quick=1600, thorough=80000, shards_quick=16, shards_thorough=16),
-               dict(pkg=APP, test="TestVerifC20Leak", quick=48, thorough=1200, shards_quick=16, shards_thorough=16)],
+               dict(pkg=APP, test="TestVerifC20Leak", quick=48, thorough=1200, shards_quick=16, shards_thorough=16),
+               dict(pkg=APP, test="TestVerifC20Race", race=True, gomaxprocs=4, quick=8, thorough=160, shards_quick=4, shards_thorough=4, report_unconfirmed=True)],
     ),
     "C04": dict(
         level="exploration",
